@@ -1723,7 +1723,12 @@ def run(tier: str, seed: int, replay: str | None = None) -> int:
         input_histogram=dict(sorted(hist.items())),
     )
     rep.assumptions += [
-        "submodules, operator/assignment generics in only-lists, modules loaded from an external project (modules.json), block "
+        "stream ext: modules loaded from an external project are modelled (`twoStep`: obj2dict / dict2obj on the export tables, "
+        "loaded modules behind the extra_mods stubs in the binding scan, frozen in the consumer's ranklist loop) and compared for "
+        "ONE project boundary, a local path, module-level scopes; an entity of the external project is identified in the consumer "
+        "by the URL of its page; pairs are legal programs outside the known defect classes; a loaded module is never called like "
+        "an extra_mods stub or like a module of the consumer",
+        "submodules, operator/assignment generics in only-lists, block "
         "data and IMPORT statements are not modelled or generated; the ExternalModule stubs of settings.extra_mods and the "
         "binding step find_used_modules are modelled (`bindName`, `bindG`); contained procedures of modules, programs and "
         "external subroutines and the bodies of unnamed / generic / abstract interface blocks are modelled (`runN`) and compared",
